@@ -174,6 +174,42 @@ def persisted_fields(chk: Check, rule: str = 'SYM-persisted-field') -> None:
                    kind=f'key:{attr}', expr=attr)
 
 
+def saved_mappings_restored_whole(chk: Check, rule: str = 'SYM-mapping-restored') -> None:
+    """A mapping with USER-CHOSEN keys (the work chain context) is restored by ``Cls(**saved[...])``.  Every entry comes back only if the constructor takes nothing
+    but ``**kwargs``: a named parameter -- ``mapping=None`` added for convenience -- captures the entry stored under that name (it vanishes from the restored
+    mapping, or is spilled into it).  For every call below a load_instance_state that spreads something read from the saved state with ``**``: the callee has no
+    named parameter that such a key could bind to."""
+    prog = chk.prog
+    n = 0
+    seen_ = set()
+    for c in savable_classes(prog) + [k for k in prog.all_classes() if k.name.endswith('Mixin')]:
+        if c.qualname in seen_:
+            continue
+        seen_.add(c.qualname)
+        lf = c.vmethods.get('load_instance_state')
+        if lf is None or len(lf.params) < 2:
+            continue
+        sp = lf.params[1]
+        for call in calls_in_func(lf):
+            spread = [k.value for k in call.keywords if k.arg is None and sp in {x.id for x in ast.walk(k.value) if isinstance(x, ast.Name)}]
+            if not spread:
+                continue
+            t = chk.ctx.calls.resolve_call(lf, call)
+            callee = t.funcs[0] if len(t.funcs) == 1 else None
+            if callee is None and t.ctor is not None:
+                callee = t.ctor.lookup('__init__')
+            n += 1
+            if callee is None:
+                chk.ob(rule, lf, True, f'{norm(call.func)}(**<saved>) -- constructor inherited from outside the program (takes what it is given)', node=call, kind='spread-into-external')
+                continue
+            a_ = callee.node.args
+            named = [x.arg for x in a_.args][(1 if callee.cls is not None else 0) + len(call.args):] + [x.arg for x in a_.kwonlyargs]
+            chk.ob(rule, lf, not named and a_.kwarg is not None, f'{norm(call.func)}(**<saved mapping>): the callee {callee.short} takes every entry as it is' + ('' if not named else
+                   f' -- it does not: its named parameter(s) {named} capture the entry saved under that key, which is then missing from (or spilled into) the restored mapping'),
+                   node=call, kind='spread-keeps-every-key')
+    chk.ob(rule, 'persistence.Savable', True, f'{n} call(s) that spread saved data with ** examined', kind='spread-scan')
+
+
 def load_is_deterministic(chk: Check, rule: str = 'LOAD-deterministic') -> None:
     """What a load rebuilds depends on the saved state and the load context only: no user callable (an outline predicate,
     a step function, a callable port default, a user hook stored in an attribute) runs anywhere below a
@@ -237,6 +273,23 @@ def inputs_encoded_by_deepcopy(chk: Check, rule: str) -> None:
         rets = [n for n in ast.walk(f.node) if isinstance(n, ast.Return)]
         ok = len(rets) == 1 and isinstance(rets[0].value, ast.Call) and norm(rets[0].value.func) == 'copy.deepcopy' and [norm(a) for a in rets[0].value.args] == [f.params[1]]
         chk.ob(rule, f, ok, f'{f.name} returns a deep copy of its argument', kind='deepcopy')
+
+
+def io_mappings_encoded(chk: Check, rule: str) -> None:
+    """The raw inputs, the parsed inputs and the OUTPUTS go into a checkpoint through encode_input_args (a deep copy) and come out through decode_input_args (a deep
+    copy again): neither the bundle nor any process rebuilt from it shares a nested mapping with the live process or with another rebuilt one."""
+    prog = chk.prog
+    ps = prog.func('processes.Process.save_instance_state')
+    pl = prog.func('processes.Process.load_instance_state')
+    for k, v in saved_keys_of(prog, ps).items():
+        if k in ('INPUTS_RAW', 'INPUTS_PARSED', 'OUTPUTS'):
+            ok = isinstance(v, ast.Call) and norm(v.func) == 'self.encode_input_args'
+            chk.ob(rule, ps, ok, f'{k} is stored through encode_input_args (no reference to the live mapping)', node=v, kind=f'encoded:{k}')
+    inputs_encoded_by_deepcopy(chk, rule)
+    for k in ('INPUTS_RAW', 'INPUTS_PARSED', 'OUTPUTS'):
+        uses = loaded_keys_of(prog, pl).get(k, [])
+        ok = bool(uses) and all(any(isinstance(c, ast.Call) and norm(c.func) == 'self.decode_input_args' and any(u is x for x in ast.walk(c)) for c in ast.walk(pl.node)) for u in uses)
+        chk.ob(rule, pl, ok, f'{k} is restored through decode_input_args', kind=f'decoded:{k}')
 
 
 def run(chk: Check) -> None:
@@ -362,19 +415,15 @@ def run(chk: Check) -> None:
            'recreate_from runs init() (cleanups, subscriptions, cancel hook) on the loaded process', kind='init-on-load')
 
     # 4. copy at save
-    ps = prog.func('processes.Process.save_instance_state')
-    for k, v in saved_keys_of(prog, ps).items():
-        if k in ('INPUTS_RAW', 'INPUTS_PARSED', 'OUTPUTS'):
-            ok = isinstance(v, ast.Call) and norm(v.func) == 'self.encode_input_args'
-            chk.ob('PROV-copy-at-save', ps, ok, f'{k} is stored through encode_input_args (no reference to the live mapping)', node=v, kind=f'encoded:{k}')
-    inputs_encoded_by_deepcopy(chk, 'PROV-copy-at-save')
-    for k in ('INPUTS_RAW', 'INPUTS_PARSED', 'OUTPUTS'):
-        uses = loaded_keys_of(prog, pl).get(k, [])
-        ok = bool(uses) and all(any(isinstance(c, ast.Call) and norm(c.func) == 'self.decode_input_args' and any(u is x for x in ast.walk(c)) for c in ast.walk(pl.node)) for u in uses)
-        chk.ob('PROV-copy-at-save', pl, ok, f'{k} is restored through decode_input_args', kind=f'decoded:{k}')
+    io_mappings_encoded(chk, 'PROV-copy-at-save')
     members_deepcopied(chk)
     persisted_members_can_be_copied(chk)
+    # the members a class registers lazily (through its persist() hook) are known on BOTH sides: the hook has run before the loader iterates the member table,
+    # whoever calls it (recreate_from and load() included), else a member that was saved is silently left out of the rebuilt object (shared with C19)
+    from .c19 import persist_hook_before_members
+    persist_hook_before_members(chk, 'SYM-key-agreement')
     stored_exceptions_roundtrip(chk)
+    saved_mappings_restored_whole(chk)
     load_is_deterministic(chk)
     # the in-memory medium: the bundle is a deep copy of the saved state (shared with C14)
     from .c14 import snapshot_isolation
